@@ -4,7 +4,7 @@
 From Coq Require Import List String Ascii NArith Lia Bool Arith.
 Import ListNotations.
 Require Import P.Generated.Enums P.Spec.Values P.Generated.Tables P.Meta.Scan P.Model.Base P.Model.Token P.Model.Reader P.Model.Trace
-  P.Model.Writer P.Model.Pool P.Model.Walk P.Model.Builder P.Model.Atom P.Spec.Events P.Spec.Pool P.Spec.Valence P.Spec.Normal P.Spec.Known P.Checks.C18_defs P.Checks.Token_defs.
+  P.Model.Writer P.Model.Pool P.Model.Walk P.Model.Builder P.Model.Atom P.Spec.Events P.Spec.Pool P.Spec.Valence P.Spec.Normal P.Spec.Known P.Spec.Graph P.Checks.C18_defs P.Checks.Token_defs.
 Local Open Scope string_scope.
 
 Fixpoint show_N_aux (fuel : nat) (n : N) (acc : string) : string :=
@@ -93,6 +93,9 @@ Definition run_walk_suite (cs : list walk_case) :=
   let r := walk_analyse cs in
   [("RESULT", "corr.walk_model", wr_model r); ("RESULT", "C08.walk_conformant", wr_conf r); ("RESULT", "C08.walk_joins_matched", wr_joins r);
    ("RESULT", "C13.walk_joins_smallest_free", wr_least r);
+   ("RESULT", "C11.ok_iff_well_formed", bad (fun c => match wc_res c with WOk => wf (wc_g c) | WErr _ => negb (wf (wc_g c)) | _ => true end) (fun c => show_graph (wc_g c)) cs);
+   ("RESULT", "C11.error_names_real_defect", bad (fun c => match wc_res c with WErr e => has_defect_b (wc_g c) (match e with HalfBond a b => DHalf a b | DuplicateBond a b => DDuplicate a b
+        | UnknownTarget a b => DUnknown a b | IncompatibleBond a b => DIncompatible a b | Loop a => DLoop a end) | _ => true end) (fun c => show_graph (wc_g c)) cs);
    ("RESULT", "C06.walk_nopanic", bad (fun c => match wc_res c with WPanic 2 => existsb (fun a => known_invert_panic (akind a)) (wc_g c) | WPanic _ => false | _ => true end) (fun c => show_graph (wc_g c)) cs);
    ("RESULT", "C06.known.K2_invert_unimplemented", firstn 2 (bad (fun c => match wc_res c with WPanic 2 => negb (existsb (fun a => known_invert_panic (akind a)) (wc_g c)) | _ => true end) (fun c => show_graph (wc_g c)) cs))].
 
